@@ -90,6 +90,10 @@ func r9tab(c *core.Ctx, m *nasModel) {
 			c.Fail(R, "nasMessage."+n, token.NoPos, "message %s of TS 24.501 is not implemented (no Encode/Decode pair)", n)
 			continue
 		}
+		if un := msg.uninterpreted(); len(un) > 0 && n != "SecurityProtected5GSNASMessage" {
+			c.SoftUndecided("nasMessage.%s: the codec moves octets with statements the model does not interpret (%s); its layout is not decided", n, clip(strings.Join(un, "; ")))
+			continue
+		}
 		mand := map[string][]nasTok{}
 		for _, t := range msg.EncMand {
 			mand[t.Field] = append(mand[t.Field], t)
